@@ -160,7 +160,7 @@ def pop_side(fn, op, region):
     return sides.pop() if len(sides) == 1 else "?"
 
 
-def folder_table(ctx, prog, fpath, kind_adt):
+def folder_table(ctx, prog, fpath, kind_adt, _depth=0):
     f = prog.fn(fpath)
     sw = arms.enum_switches(prog, f, kind_adt, on_local=1)
     ctx.need(sw, "C04: no switch on %s in %s" % (kind_adt, fpath))
@@ -172,7 +172,25 @@ def folder_table(ctx, prog, fpath, kind_adt):
         for s, c in sem_calls(f, reg):
             sig = tuple(param_side(f, a, 2, 3) for a in c.args[:2])
             ops_.append((s, sig))
-        tab[v] = (sorted(set(ops_)), negated(prog, f, reg, v, kind_adt))
+        neg_ = negated(prog, f, reg, v, kind_adt)
+        # an arm may hand the operands to the sibling folder with a constant operator
+        # (`BinOpKind::Eq => return eval_compare(CompareOpKind::Eq, left, right)`): its row of that table, with the
+        # operand sides mapped through the call's arguments
+        for c in arms.calls_in(f, reg):
+            sib = {EVAL_COMPARE: CMPKIND, EVAL_BINOP: BINOPKIND}.get(c.name)
+            if sib is None or c.name == fpath or len(c.args) < 3 or _depth > 0:
+                continue
+            vs = {o.rv["variant"] for o in flow.origins(f, c.args[0]) if o.kind == "agg" and o.rv.get("adt") == sib}
+            if len(vs) != 1:
+                continue
+            _, _, _, sub = folder_table(ctx, prog, c.name, sib, _depth + 1)
+            row = sub.get(next(iter(vs)))
+            if row is None:
+                continue
+            side = {"L": param_side(f, c.args[1], 2, 3), "R": param_side(f, c.args[2], 2, 3), "?": "?"}
+            ops_ += [(s_, tuple(side.get(x, "?") for x in sig_)) for s_, sig_ in row[0]]
+            neg_ = neg_ != row[1] if isinstance(neg_, bool) and isinstance(row[1], bool) else (neg_ or row[1])
+        tab[v] = (sorted(set(ops_)), neg_)
     return f, bb, regs, tab
 
 
@@ -349,6 +367,27 @@ def run(ctx):
                 else:
                     ok = False
                     detail.append("non-operand value %r" % o)
+        if not ok:
+            # the two operators may share an arm that computes which operand to keep (`keep_left = left.is_true() !=
+            # matches!(op, ScAnd)`): the four cases (operator x truthiness of the left operand) are walked with both known
+            from .. import typestate
+            ok, detail2 = True, []
+            for truth, want in ((True, want_true), (False, want_false)):
+                def on_call(k_, st_, val_, truth=truth):
+                    if k_.name == "minijinja::value::Value::is_true" and param_side(fb, k_.args[0], 2, 3) == "L":
+                        return [(st_, ("B", "1" if truth else "0"))]
+                    return None
+                wr = typestate.explore(prog, fb, 0, on_call, env0={1: ("V", frozenset([v]))})
+                sides = set()
+                for c_ in fb.calls():
+                    if c_.name.endswith("::clone") and c_.bb in wr.visited and c_.bb in reg:
+                        for o_ in flow.origins(fb, c_.args[0], within=wr.visited,
+                                               through_calls=lambda k: 0 if k.name.endswith("::deref") else None):
+                            sides.add(("L" if o_.arg == 2 else "R" if o_.arg == 3 else "?") if o_.kind == "arg" else "?")
+                detail2.append("left %s -> %s" % ("truthy" if truth else "falsy", sorted(sides)))
+                if wr.budget_hit or sides != {want}:
+                    ok = False
+            detail = detail2 + ["(walked per operator and truth value)"]
         ctx.ob("C04.K2.short-circuit-returns-operand", "eval_binop|%s" % v, ok,
                "values returned by the folder's %s arm: %s; the VM's JumpIf%sOrPop leaves the left operand when it "
                "decides and the right operand otherwise" % (v, detail, "False" if v == "ScAnd" else "True"), fb.loc)
@@ -356,7 +395,10 @@ def run(ctx):
     # ---- K3
     n3 = 0
     scope = [_ac(prog), fb, fc] + _ac_closures(prog) + prog.closures_of(EVAL_COMPARE) + prog.closures_of(EVAL_BINOP)
-    ce = prog.fn(COMPILE_EXPR)
+    # compile_expr is read through private helpers its fast paths may have been moved into (`negated_literal(expr)`)
+    from .. import inline as _inl
+    ce = _inl.view(prog, prog.fn(COMPILE_EXPR), keep=lambda t: t.startswith("minijinja::compiler::codegen::CodeGenerator::") or
+                   t.startswith("minijinja::value::") or t.startswith("minijinja::compiler::ast::"), max_blocks=30)
     for f in scope + [ce]:
         for c in f.calls():
             if c.name.startswith("minijinja::value::ops::") and f.locals[c.dest["l"]].get("adt") == "core::result::Result":
